@@ -285,8 +285,15 @@ def _spec(sink, path, S, shape, info, focus, logprobs):
     kreq = core.SN(z3.IntVal(req))
     acc, kept, ranks = c02.kept_spec(lls, vs, kreq)
     info2 = dict(info)
+    pref = []
+    for l in lls:
+        pref += [core.lift(l) >= -6, core.lift(l) <= 2]
+    for v in vs_all:
+        pref += [core.lift(v) >= -4, core.lift(v) <= z3.RealVal("-1/50")]
+    for i, r_ in enumerate(lib):
+        pref += [core.lift(r_[0]) == 2 + i] + [z3.And(core.lift(c) >= 0, core.lift(c) <= 5) for c in r_[1:]]
     if focus == "C14":
-        sink.check(path, "rows", core.SB(c02.claims_rows(info2, rows, kept, ranks)), site=shape["mode"], describe=desc)
+        sink.check(path, "rows", core.SB(c02.claims_rows(info2, rows, kept, ranks)), site=shape["mode"], describe=desc, prefer=pref)
     else:
         obs = info["obs"]
         if logprobs:
@@ -300,7 +307,7 @@ def _spec(sink, path, S, shape, info, focus, logprobs):
                     for g in range(m):
                         cl.append(z3.Implies(z3.And(kept[j], ranks[j] == g),
                                              z3.And(core.lift(obs["ln_likelihood"][g] == lls[j]), core.lift(obs["ln_prior"][g] == lps[j]))))
-                sink.check(path, "iter.attached", core.SB(z3.And(cl)), site=shape["mode"], describe=desc)
+                sink.check(path, "iter.attached", core.SB(z3.And(cl)), site=shape["mode"], describe=desc, prefer=pref)
 
 
 # ---------------------------------------------------------------------------------------------
